@@ -588,6 +588,21 @@ func Derive(prof string, c *model.Corpus, seed uint64, run int, bankLimit uint64
 			soak = true // a long single-task run around a wrap operation (see C09)
 			rs.Tasks, rs.Pool, nops = 1, "lifo", 6+r.Intn(10)
 		}
+		if np := len(c.Panicky()); np > 0 && r.Chance(1, 3) {
+			// a third of the histories contain calls that fail with the user's own panic (InitDefault), several on
+			// the same definition: a failed call must not change what the next one on it returns
+			k := r.Intn(np)
+			for try := 0; try < 4 && len(c.Panicky()[k].Name) < 9; try++ {
+				k = r.Intn(np) // prefer the holders (HoldPanicInit*): their registration gets under way before it fails
+			}
+			random := pickOp
+			pickOp = func() uint64 {
+				if r.Chance(1, 12) {
+					return PanicBase + uint64(3*k+r.Intn(3))
+				}
+				return random()
+			}
+		}
 	case "C09":
 		rs.Tasks = 1 + r.Intn(2)
 		nops = 40 + r.Intn(80)
